@@ -906,8 +906,11 @@ func (s *levelsController) compactBuildTables(
 
 	keepTable := func(t *table.Table) bool {
 		for _, prefix := range cd.dropPrefixes {
-			if bytes.HasPrefix(t.Smallest(), prefix) &&
-				bytes.HasPrefix(t.Biggest(), prefix) {
+			// Compare user keys: the timestamp suffix of an internal key starts with 0xff
+			// bytes, so a table holding only the key "a" would otherwise match the prefix
+			// "a\xff" and be dropped wholesale.
+			if bytes.HasPrefix(y.ParseKey(t.Smallest()), prefix) &&
+				bytes.HasPrefix(y.ParseKey(t.Biggest()), prefix) {
 				// All the keys in this table have the dropPrefix. So, this
 				// table does not need to be in the iterator and can be
 				// dropped immediately.
